@@ -88,3 +88,81 @@ def enum_value(repo: Repo, cls: str, attr: str):
 def candle(prefix: str = "") -> Arr:
     return Arr([R.atom(prefix + "ts"), R.atom(prefix + "o"), R.atom(prefix + "c"),
                 R.atom(prefix + "h"), R.atom(prefix + "l"), R.atom(prefix + "v")])
+
+
+def obj_of(repo: Repo, rel: str, cls: str, name: str = None, attrs: dict = None, open_world=False) -> Obj:
+    return Obj(cls, repo.module(rel), repo.cls(rel, cls), name=name or cls, attrs=attrs or {}, open_world=open_world)
+
+
+def run_function(repo: Repo, rel: str, qual: str, make_args: Callable, stubs=None, overrides=None,
+                 samples=None, nonneg=None, max_paths=256, self_obj_factory: Callable = None, ext_stubs=None):
+    """Explore all paths of a repo function.  make_args() -> (args, kwargs) builds fresh abstract
+    arguments for each re-execution; self_obj_factory() builds the receiver for methods."""
+    from .absint import explore
+    mod = repo.module(rel)
+    fn = repo.func(rel, qual)
+    clsnode = repo.cls(rel, qual.split(".")[0]) if "." in qual else None
+
+    def mk(dec):
+        it = Interp(repo, stubs=stubs() if callable(stubs) else (stubs or base_stubs()),
+                    overrides=overrides() if callable(overrides) else (overrides or {}),
+                    samples=[dict(s) for s in (samples or [])], nonneg=set(nonneg or ()), decisions=dec,
+                    ext_stubs=ext_stubs)
+        a, k = make_args(it)
+        self_obj = self_obj_factory(it) if self_obj_factory else None
+        it.args = a
+        it.self_obj = self_obj
+        return it, lambda it: it.call(FuncV(fn, mod, self_obj=self_obj, cls=clsnode, qual=qual), a, k)
+    return explore(mk, max_paths=max_paths)
+
+
+def peewee_defaults(repo: Repo, it: Interp, rel: str, cls: str) -> dict:
+    """Field defaults of a peewee model, read from the class body (`x = CharField(default=...)`)."""
+    import ast
+    from .absint import Frame
+    node = repo.cls(rel, cls)
+    mod = repo.module(rel)
+    out = {}
+    for b in node.body:
+        if isinstance(b, ast.Assign) and len(b.targets) == 1 and isinstance(b.targets[0], ast.Name):
+            name = b.targets[0].id
+            if isinstance(b.value, ast.Call) and norm_name(b.value.func).endswith("Field"):
+                dv = None
+                for kw in b.value.keywords:
+                    if kw.arg == "default":
+                        dv = it.eval(kw.value, Frame(mod, {}))
+                out[name] = dv
+            elif isinstance(b.value, ast.Constant):
+                out[name] = b.value.value
+    return out
+
+
+def norm_name(node) -> str:
+    import ast
+    if isinstance(node, ast.Name):
+        return node.id
+    if isinstance(node, ast.Attribute):
+        return node.attr
+    return ""
+
+
+def order_ctor(repo: Repo, counter: list = None):
+    """Stub for `Order({...})`: allocates the abstract object with the model's field defaults and then
+    interprets the repository's own Order.__init__ on it (peewee's Model.__init__ is a no-op)."""
+    counter = counter if counter is not None else [0]
+
+    def ctor(it: Interp, args, kwargs):
+        mod = repo.module(ORDER_PY)
+        cls = repo.cls(ORDER_PY, "Order")
+        defaults = peewee_defaults(repo, it, ORDER_PY, "Order")
+        counter[0] += 1
+        obj = Obj("Order", mod, cls, name=f"order#{counter[0]}", attrs=dict(defaults))
+        init = repo.find_method(mod, cls, "__init__")
+        if init is None:
+            from .loader import AnalysisError
+            raise AnalysisError("anchor vanished: Order.__init__")
+        m, cn, fn = init
+        it.event("new_order", obj.name)
+        it.call_function(FuncV(fn, m, self_obj=obj, cls=cn, qual="Order.__init__"), args, kwargs)
+        return obj
+    return ctor
